@@ -35,6 +35,8 @@ type FuncContract struct {
 	Name     string // SSA-style relative name, e.g. (*Reader).fill, crc16, handleScan$1
 	Mode     string // int | bv
 	Props    []string
+	AlsoProps []AlsoProp
+	OnlyCalls []string
 	Requires []Clause
 	Ensures  []Clause
 	Modifies []string // raw text of modifies targets
@@ -94,6 +96,13 @@ type Hint struct {
 type LetBind struct {
 	Name string
 	E    Expr
+}
+
+// AlsoProp: clause-level membership in further properties.
+type AlsoProp struct {
+	Props   []string
+	Labels  map[string]bool
+	NoPanic bool
 }
 
 type SpecFunc struct {
@@ -179,6 +188,7 @@ type Contracts struct {
 	Order  []string
 	Tables []*TableCheck
 	Writers []*WritersCheck
+	TokLatches []string
 	GlobalInvs []*GlobalInv
 	ChanInvs   []*ChanInv
 	TokChans   []string // Type.field of channels that carry the duty to complete the requests sent on them
@@ -196,6 +206,9 @@ type WritersCheck struct {
 	// Closers: instead of stores, every close() of the channel held in the field (and every use that
 	// lets the channel value travel to where it could be closed) is inside the listed functions
 	Closers bool
+	// Updaters: the mutating method calls on the cell loaded from the field are inside the listed
+	// functions (named pkgpath.func, any package)
+	Updaters bool
 }
 
 type TableCheck struct {
@@ -360,6 +373,10 @@ func (cs *Contracts) LoadContractFile(path, pkg string) error {
 		case "tokchan":
 			cs.TokChans = append(cs.TokChans, strings.Fields(rest)...)
 			return nil
+		case "toklatch":
+			// toklatch Type.field ...: closing this latch of an object completes it (gives up its token)
+			cs.TokLatches = append(cs.TokLatches, strings.Fields(rest)...)
+			return nil
 		case "fifochan":
 			cs.FifoChans = append(cs.FifoChans, strings.Fields(rest)...)
 			return nil
@@ -378,6 +395,25 @@ func (cs *Contracts) LoadContractFile(path, pkg string) error {
 			}
 			if wc.Field == "" || len(wc.Funcs) == 0 {
 				return fail("writers needs Type.field and at least one function")
+			}
+			cs.Writers = append(cs.Writers, wc)
+			return nil
+		case "updaters":
+			// updaters props=C20 Type.field f1 f2 ...: only the listed functions (of any package of the module)
+			// call a mutating method (Inc, Dec, Add, Sub, Set, Update, Store) on the cell held in this field
+			fs := strings.Fields(rest)
+			wc := &WritersCheck{Pkg: pkg, Updaters: true}
+			for _, a := range fs {
+				if strings.HasPrefix(a, "props=") {
+					wc.Props = strings.Split(a[6:], ",")
+				} else if wc.Field == "" {
+					wc.Field = a
+				} else {
+					wc.Funcs = append(wc.Funcs, a)
+				}
+			}
+			if wc.Field == "" || len(wc.Funcs) == 0 {
+				return fail("updaters needs Type.field and at least one function")
 			}
 			cs.Writers = append(cs.Writers, wc)
 			return nil
@@ -449,6 +485,26 @@ func (cs *Contracts) LoadContractFile(path, pkg string) error {
 			cur.Mode = rest
 		case "prop":
 			cur.Props = append(cur.Props, strings.Fields(rest)...)
+		case "onlycalls":
+			// onlycalls A B C: every call in the function goes to a callee whose name contains one of these
+			cur.OnlyCalls = append(cur.OnlyCalls, strings.Fields(rest)...)
+		case "alsoprop":
+			// alsoprop C04 C07 : label1 label2 no-panic
+			// the obligations of the named clauses (and, with no-panic, the safety obligations) of this
+			// function are also obligations of the listed properties, which the function as a whole is not
+			i := strings.Index(rest, ":")
+			if i < 0 {
+				return fail("alsoprop needs: <props> : <labels | no-panic>")
+			}
+			ap := AlsoProp{Props: strings.Fields(rest[:i]), Labels: map[string]bool{}}
+			for _, l := range strings.Fields(rest[i+1:]) {
+				if l == "no-panic" {
+					ap.NoPanic = true
+				} else {
+					ap.Labels[strings.TrimPrefix(l, "@")] = true
+				}
+			}
+			cur.AlsoProps = append(cur.AlsoProps, ap)
 		case "flag":
 			for _, f := range strings.Fields(rest) {
 				cur.Flags[f] = true
